@@ -88,7 +88,7 @@ class PhaseMonitor(Monitor):
     def on_ctor_failed(self, ctx, exc):
         tb = ''.join(traceback.format_exception_only(type(exc), exc)).strip()
         ctx.violate(f'constructor raised on a valid configuration: {tb} '
-                    f'[{hist.exc_site(exc)}]')
+                    f'[{hist.exc_site(exc)}]', exc=exc)
 
     def on_created(self, ctx, state):
         if ctx.nevents:
